@@ -34,25 +34,75 @@ fn mname(i: usize) -> String {
 
 /// module i: value base = 100*(i+1); provides m<i>-f (function), m<i>-v (value),
 /// m<i>-c (contracted function); private `secret` and `helper` in every module.
+/// Every module also provides a name shared with the other modules of the same
+/// parity (`tag-e` / `tag-o`, bound to its own value) and `m<i>-w`, which
+/// returns the tag it sees: the one imported (through only-in) from its first
+/// dependency of the other parity, or its own.
+fn tag_name(i: usize) -> &'static str {
+    if i % 2 == 0 { "tag-e" } else { "tag-o" }
+}
+
+/// the dependency whose tag module i imports, if any
+fn tag_source(i: usize, deps: &[usize]) -> Option<usize> {
+    deps.iter().copied().find(|d| d % 2 != i % 2)
+}
+
 fn module_text(i: usize, deps: &[usize], file_backed: &[bool], dir: &str) -> String {
     let base = 100 * (i as i64 + 1);
     let mut s = String::new();
-    for d in deps {
+    let src = tag_source(i, deps);
+    // requires inside a module use every modifier: the dependency that supplies
+    // the tag comes through only-in; of the others, every second one through
+    // prefix-in, the rest plain or only-in by position
+    let mut calls: Vec<String> = Vec::new();
+    for (k, d) in deps.iter().enumerate() {
         let target = if file_backed[*d] { format!("{}/m{}.scm", dir, d) } else { format!("m{}", d) };
-        s.push_str(&format!("(require \"{}\")\n", target));
+        if Some(*d) == src {
+            s.push_str(&format!("(require (only-in \"{}\" m{}-f {}))\n", target, d, tag_name(*d)));
+            calls.push(format!("(m{}-f)", d));
+        } else if d % 2 != i % 2 {
+            // same tag name as the source's: must not come in with this require
+            s.push_str(&format!("(require (only-in \"{}\" m{}-f m{}-v))\n", target, d, d));
+            calls.push(format!("(m{}-f)", d));
+        } else if k % 2 == 0 {
+            s.push_str(&format!("(require (prefix-in q{}. \"{}\"))\n", d, target));
+            calls.push(format!("(q{d}.m{d}-f)", d = d));
+        } else {
+            s.push_str(&format!("(require (only-in \"{}\" m{}-f))\n", target, d));
+            calls.push(format!("(m{}-f)", d));
+        }
     }
     s.push_str(&format!(
-        "(provide m{i}-f m{i}-v (contract/out m{i}-c (->/c int? int?)))\n(instantiated! \"m{i}\")\n(define secret {sec})\n(define (helper x) (+ x secret))\n(define m{i}-v {v})\n",
+        "(provide m{i}-f m{i}-v m{i}-w {tag} (contract/out m{i}-c (->/c int? int?)))\n(instantiated! \"m{i}\")\n(define secret {sec})\n(define (helper x) (+ x secret))\n(define m{i}-v {v})\n(define {tag} {t})\n",
         i = i,
         sec = base + 1,
-        v = base + 2
+        v = base + 2,
+        tag = tag_name(i),
+        t = base + 3
     ));
     let mut body = format!("(helper {})", base);
-    for d in deps {
-        body = format!("(+ {} (m{}-f))", body, d);
+    for c in &calls {
+        body = format!("(+ {} {})", body, c);
     }
-    s.push_str(&format!("(define (m{i}-f) {body})\n(define (m{i}-c x) (+ x secret))\n", i = i, body = body));
+    let seen_tag = match src {
+        Some(d) => tag_name(d),
+        None => tag_name(i),
+    };
+    s.push_str(&format!(
+        "(define (m{i}-f) {body})\n(define (m{i}-c x) (+ x secret))\n(define (m{i}-w) {seen})\n",
+        i = i,
+        body = body,
+        seen = seen_tag
+    ));
     s
+}
+
+/// value of (m<i>-w)
+fn w_value(i: usize, deps: &Vec<Vec<usize>>) -> i64 {
+    match tag_source(i, &deps[i]) {
+        Some(d) => 100 * (d as i64 + 1) + 3,
+        None => 100 * (i as i64 + 1) + 3,
+    }
 }
 
 /// value of (m<i>-f)
@@ -170,6 +220,10 @@ impl Scenario for C14 {
         };
         // which modules a successful evaluation has required (transitively)
         let mut should_be_instantiated = vec![false; n];
+        // modules that a build has kept (compiled in an evaluation whose build
+        // succeeded), and registered modules whose first build was a failed one
+        let mut built = vec![false; n];
+        let mut first_built_in_failed_build = vec![false; n];
         fn mark(m: usize, deps: &Vec<Vec<usize>>, out: &mut Vec<bool>) {
             out[m] = true;
             for d in &deps[m] {
@@ -202,12 +256,14 @@ impl Scenario for C14 {
                         src.push_str(&format!("(require (prefix-in p{}. \"{}\"))\n", m, target(m)));
                         checks.push((format!("(p{m}.m{m}-f)", m = m), f_value(m, &deps).to_string()));
                         checks.push((format!("p{m}.m{m}-v", m = m), (base + 2).to_string()));
+                        checks.push((format!("(p{m}.m{m}-w)", m = m), w_value(m, &deps).to_string()));
                     }
                     _ => {
                         src.push_str(&format!("(require \"{}\")\n", target(m)));
                         checks.push((format!("(m{}-f)", m), f_value(m, &deps).to_string()));
                         checks.push((format!("m{}-v", m), (base + 2).to_string()));
                         checks.push((format!("(m{}-c 1)", m), (base + 2).to_string()));
+                        checks.push((format!("(m{}-w)", m), w_value(m, &deps).to_string()));
                     }
                 }
             }
@@ -250,13 +306,34 @@ impl Scenario for C14 {
             // evaluation that failed at compile time cannot be required again
             // (its definitions were rolled back, the module cache says it has
             // been emitted already).
+            let mut closure = vec![false; n];
+            for m in &required {
+                mark(*m, &deps, &mut closure);
+            }
             if let Err(e) = &res {
                 if e.contains("__module-") && e.contains("FreeIdentifier") {
+                    // the recorded defect concerns registered (in-memory) modules only:
+                    // for modules read from files the failed build is undone completely
+                    let registered_lost = (0..n).any(|m| closure[m] && first_built_in_failed_build[m] && !file_backed[m]);
                     cleanup(&dir);
                     report::violation(
-                        &format!("C14/{}/module-lost-after-failed-compilation", tier),
+                        &format!(
+                            "C14/{}/module-lost-after-failed-compilation/{}",
+                            tier,
+                            if registered_lost { "registered-module" } else { "file-module" }
+                        ),
                         format!("step {} ({}): {}\n=> {}", si, kind, src, e),
                     );
+                }
+            }
+            let build_failed = kind == "compile-fail" || (kind == "private-probe" && !own_secret);
+            for m in 0..n {
+                if closure[m] && !built[m] {
+                    if build_failed {
+                        first_built_in_failed_build[m] = true;
+                    } else {
+                        built[m] = true;
+                    }
                 }
             }
             let detail = |what: &str, res: &Result<Vec<String>, String>| format!("step {} ({}): {}\n{}\n=> {:?}", si, kind, what, src, res);
@@ -341,7 +418,7 @@ impl Scenario for C14 {
     }
 
     fn rule(&self) -> String {
-        "each evaluation = one forked run: an acyclic graph of 2-8 modules (random dependencies incl. diamonds; every module has privates `secret` and `helper` with its own values, provides a function that sums over its dependencies, a value and a contracted function; its body bumps a host counter), stored through register_steel_module or as files in a per-run temp directory (mixed); a history of 3-20 evaluations on one engine requires 1-3 modules each with plain / only-in / prefix-in modifiers, optionally defines its own `secret`, and is one of: ok, compile-time failure after the requires, run-time failure after the module bodies ran, probe of a private name, probe of a contract violation; oracle: provided names evaluate to the providing module's values, privates and filtered names are not visible, contracts are checked at the boundary, every counter is <= 1 always and == 1 for modules required by an evaluation whose bodies ran; JIT on/off; non-trivial = at least two modules instantiated".into()
+        "each evaluation = one forked run: an acyclic graph of 2-8 modules (random dependencies incl. diamonds; every module has privates `secret` and `helper` with its own values, provides a function that sums over its dependencies, a value, a contracted function and a tag whose name it shares with every module of the same parity; inside a module the dependencies are required through only-in / prefix-in by position, the tag of one dependency is imported through only-in and must not be replaced by the same-named tag of a later dependency; its body bumps a host counter), stored through register_steel_module or as files in a per-run temp directory (mixed); a history of 3-20 evaluations on one engine requires 1-3 modules each with plain / only-in / prefix-in modifiers, optionally defines its own `secret`, and is one of: ok, compile-time failure after the requires, run-time failure after the module bodies ran, probe of a private name, probe of a contract violation; oracle: provided names evaluate to the providing module's values, privates and filtered names are not visible, contracts are checked at the boundary, every counter is <= 1 always and == 1 for modules required by an evaluation whose bodies ran; JIT on/off; non-trivial = at least two modules instantiated".into()
     }
     fn assumptions(&self) -> Vec<String> {
         vec![
